@@ -25,7 +25,7 @@ props.prop(
                 'writes to public attributes from outside the class, array contents mutated behind update_components',
     assumptions=['memo caches are only created by glue.core.decorators.memoize'])
 props.also('C05',
-           'that the array reducers never write a possibly memoised argument in place')
+           'that the array reducers never write a possibly memoised argument in place; that arrays read from a hand-rolled cache of a viewer state are copied before they are changed in place')
 
 MEMOIZE = 'glue.core.decorators.memoize'
 DECOS = 'glue.core.decorators'
